@@ -78,16 +78,20 @@ Print Assumptions mutual_exclusion.
 
 (* LEASE LENGTH: the lease is exactly seconds*1000 + 500 ms.  After a successful Acquire by i
    and any quiet history that took [elapsed ops] ms in total, d more ms later i holds the key
-   iff elapsed + d < seconds*1000 + 500, and from that moment on the key is free. *)
+   iff [before incl (elapsed + d) (seconds*1000 + 500)], and otherwise the key is free:
+   elapsed + d < seconds*1000+500 under miniredis' convention (expiry_inclusive = true),
+   elapsed + d <= seconds*1000+500 under real Redis' (false: a key lives through the
+   millisecond at which its TTL reaches 0).  Both conventions are covered: [s] is any state. *)
 Theorem lease_length : forall key s i l ops d,
   NoDup (ids s) -> secs_ok s -> nth_error (insts s) i = Some l ->
   snd (step key s (OAcquire i)) = RB true false ->
   forallb (quiet i) ops = true -> elapsed ops < lease (isecs l) ->
   let s1 := fst (step key s (OAcquire i)) in
   let s3 := fst (step key (final key s1 ops) (OAdvance d)) in
+  let incl := expiry_inclusive (store s) in
   lease (isecs l) = isecs l * 1000 + 500 /\
-  held_by key s3 (iid l) = (elapsed ops + d <? isecs l * 1000 + 500) /\
-  key_free key s3 = negb (elapsed ops + d <? isecs l * 1000 + 500).
+  held_by key s3 (iid l) = before incl (elapsed ops + d) (isecs l * 1000 + 500) /\
+  key_free key s3 = negb (before incl (elapsed ops + d) (isecs l * 1000 + 500)).
 Proof. exact lease_is_exact. Qed.
 Print Assumptions lease_length.
 
@@ -116,7 +120,7 @@ Print Assumptions only_holder_releases.
 
 (* ---- non-vacuity: concrete histories meeting the hypotheses ---- *)
 Definition ex_key := BStr "lk".
-Definition ex_s := fst (step ex_key (init ["idA"; "idB"; "idC"]) (OSetExpire 0 2)).
+Definition ex_s := fst (step ex_key (init false ["idA"; "idB"; "idC"]) (OSetExpire 0 2)).
 
 Example ex_hyps : NoDup (ids ex_s) /\ secs_ok ex_s /\
   nth_error (insts ex_s) 0 = Some (mkInst "idA" 2) /\
@@ -127,13 +131,20 @@ Proof.
   - repeat constructor; cbn; discriminate.
 Qed.
 
-(* B and C hammer the lock for 2499 ms: all refused; A still holds; 1 ms later B gets it,
+(* real-Redis convention (expiry_inclusive = false).  B and C hammer the lock for 2499 ms: all
+   refused; A still holds; 2 ms later (2501 > 2500) B gets it,
    and A's late Release is answered false and does not free B's lock *)
 Definition ex_ops := [OAcquire 1; ORelease 2; OAdvance 2000; OAcquire 2; OSetExpire 1 9; ORelease 1; OAdvance 499; OAcquire 1].
 Example ex_quiet : forallb (quiet 0) ex_ops = true /\ elapsed ex_ops = 2499 /\ lease 2 = 2500.
 Proof. repeat split. Qed.
 Example ex_run :
-  run ex_key ex_s (OAcquire 0 :: ex_ops ++ [OAdvance 1; OAcquire 1; ORelease 0; OAcquire 2; OAcquire 1; ORelease 1; ORelease 1])
+  run ex_key ex_s (OAcquire 0 :: ex_ops ++ [OAdvance 2; OAcquire 1; ORelease 0; OAcquire 2; OAcquire 1; ORelease 1; ORelease 1])
   = [RB true false; RB false false; RB false false; RU; RB false false; RU; RB false false; RU; RB false false;
      RU; RB true false; RB false false; RB false false; RB true false; RB true false; RB false false].
 Proof. vm_compute. reflexivity. Qed.
+
+(* the boundary millisecond under the two conventions: at elapsed = lease exactly *)
+Example ex_boundary :
+  run ex_key (fst (step ex_key (init true ["idA"; "idB"] ) (OSetExpire 0 2))) [OAcquire 0; OAdvance 2500; OAcquire 1] = [RB true false; RU; RB true false] /\
+  run ex_key (fst (step ex_key (init false ["idA"; "idB"]) (OSetExpire 0 2))) [OAcquire 0; OAdvance 2500; OAcquire 1] = [RB true false; RU; RB false false].
+Proof. vm_compute. split; reflexivity. Qed.
